@@ -1,13 +1,15 @@
 """C16 -- density bins account for all free area and every cell is in one bin.
 Proof: coq/Properties_C16.v (tiling, capacity = free area, hierarchy, aggregation, partition invariant over
-all histories of refine/coarsen/Redistribute, checker equivalence, spread coordinates over Q).
+all histories of refine/coarsen/Redistribute and of those interleaved with demand updates (DensityUpdate.v: the update is
+refused, leaving everything unchanged, when a demand changes to or from zero), checker equivalence, spread coordinates over Q).
 Tie: harness/density.cpp drives DensityGrid / HierarchicalDensityPlacement / DensityLegalizer of /repo's
 working tree (assert-enabled "plain" variant, then the NDEBUG variant) through random interleavings of the
 public API (+ the private rebisect/reoptimize/improveX/YTransport/findConstrainedSplitPos) and prints the
 state after every step; ocaml/driver_density.ml follows that trace with the extracted model: geometry,
 capacities of every view, parents, findBinBy*, coarsening, setBinCells exactly; refine / run / improve /
 rebisect / reoptimize / transport against the model's relation (Redistribute of the touched bins) and the
-proved checker partition_okb.  The statement itself is re-evaluated on the C++ output by the independent
+proved checker partition_okb; size updates (Circuit::setCellWidth/Height + updateCellDemand(circuit), op 16) exactly
+against DensityUpdate.ustep, with the checker evaluated for the demands the object holds afterwards.  The statement itself is re-evaluated on the C++ output by the independent
 oracles below (so a difference comes with or without a concrete failing input)."""
 import json
 import math
@@ -59,6 +61,7 @@ def parse_case(line):
         c["regions"] = [tuple(tk.ints(4)) for _ in range(nreg)]
         n = tk.i()
         c["demands"] = tk.ints(n)
+        c["sizes"] = [(0, d, 1) for d in c["demands"]]   # the shadow circuit of the harness: movable, width = demand, height 1
     else:
         c["binSize"] = tk.i()
         c["margin"] = tk.i()
@@ -67,6 +70,7 @@ def parse_case(line):
         n = tk.i()
         c["cells"] = [tuple(tk.ints(7)) for _ in range(n)]
         c["demands"] = [0 if fx else w * h for (x, y, w, h, o, fx, ob) in c["cells"]]
+        c["sizes"] = [(fx, w, h) for (x, y, w, h, o, fx, ob) in c["cells"]]
         c["regions"] = free_regions(c["rows"], c["cells"], c["margin"])
     c["n"] = n
     c["targets"] = [tuple(tk.ints(2)) for _ in range(n)]
@@ -86,6 +90,9 @@ def parse_case(line):
             args = tk.ints(5)
         elif code == 13:
             args = tk.ints(1)
+        elif code == 16:
+            k = tk.i()
+            args = [k] + tk.ints(3 * k)
         else:
             args = []
         ops.append((code, args))
@@ -174,7 +181,11 @@ def parse_trace(trace, case):
         c2 = tk.i()
         if c2 != code:
             raise ValueError("trace out of step")
-        rec = {"code": code, "na": False, "T": None, "U": None, "state": None}
+        rec = {"code": code, "na": False, "T": None, "U": None, "state": None, "accepted": None, "D": None}
+        if tk.peek() in ("A", "R"):
+            rec["accepted"] = tk.nx() == "A"
+            tk.expect("D")
+            rec["D"] = tk.ints(n)
         if tk.peek() == "NA":
             tk.nx()
             rec["na"] = True
@@ -333,12 +344,53 @@ def check_spread(case, tr, side, qside, stats, corr):
     return None
 
 
-def demands_at(case, upto):
+def circuit_areas(sizes):
+    return [0 if fx else w * h for (fx, w, h) in sizes]
+
+
+def apply_sizes(case, sizes, args):
+    """op 16: (cell, width, height) triples applied to the circuit (cell index modulo the number of cells)"""
+    n = case["n"]
+    sizes = list(sizes)
+    for q in range(args[0]):
+        c, w, h = args[1 + 3 * q:4 + 3 * q]
+        if n > 0:
+            sizes[c % n] = (sizes[c % n][0], w, h)
+    return sizes
+
+
+def demand_walk(case, tr):
+    """-> (list over ops of the demand vector in force after the op, violation or None, classes of the updates).
+    The demands in force are the areas the density object holds (its own cellDemand after a size update); an accepted
+    update must hold exactly the circuit's areas, a refused one must leave the object as it was."""
     d = list(case["demands"])
-    for (code, args) in case["ops"][:upto]:
+    sizes = list(case["sizes"])
+    out, bad, classes = [], None, []
+    prev_state = tr["states"][0]
+    for k, ((code, args), rec) in enumerate(zip(case["ops"], tr["ops"])):
         if code == 13:
             d = [v * args[0] for v in d]
-    return d
+        elif code == 16 and rec["D"] is not None:
+            sizes = apply_sizes(case, sizes, args)
+            new = circuit_areas(sizes)
+            tozero = any(a != 0 and b == 0 for a, b in zip(d, new))
+            fromzero = any(a == 0 and b != 0 for a, b in zip(d, new))
+            classes.append(("to-zero" if tozero else "") + ("from-zero" if fromzero else "") or
+                           ("different" if new != d else "same"))
+            classes.append("accepted" if rec["accepted"] else "refused")
+            if rec["accepted"]:
+                if rec["D"] != new and not bad:
+                    bad = "after op %d (size update, accepted): the density object holds the demands %s, the areas of the " \
+                          "circuit's movable cells are %s" % (k, rec["D"], new)
+            else:
+                if (rec["D"] != d or (rec["state"] is not None and rec["state"] != prev_state)) and not bad:
+                    bad = "after op %d (size update, refused with an exception): the density object was modified " \
+                          "(demands %s -> %s)" % (k, d, rec["D"])
+            d = list(rec["D"])
+        if rec["state"] is not None:
+            prev_state = rec["state"]
+        out.append(list(d))
+    return out, bad, classes
 
 
 def oracle(case, tr, side, qside, stats, corr):
@@ -354,12 +406,20 @@ def oracle(case, tr, side, qside, stats, corr):
     w = check_findbin(case, tr["states"][0])
     if w:
         return w
+    dem, wd, classes = demand_walk(case, tr)
+    for cl in classes:
+        stats["update_" + cl] += 1
     for k, rec in enumerate(tr["ops"]):
         if rec["state"] is None:
             continue
-        w = check_partition(case, rec["state"], demands_at(case, k + 1)) or check_findbin(case, rec["state"])
+        w = check_partition(case, rec["state"], dem[k]) or check_findbin(case, rec["state"])
         if w:
-            return "after op %d (code %d): %s" % (k, rec["code"], w)
+            what = OPNAMES.get(rec["code"], "?")
+            if rec["code"] == 16:
+                what += " accepted" if rec["accepted"] else " refused"
+            return "after op %d (code %d, %s): %s" % (k, rec["code"], what, w)
+    if wd:
+        return wd
     return check_spread(case, tr, side, qside, stats, corr)
 
 
@@ -367,7 +427,7 @@ def oracle(case, tr, side, qside, stats, corr):
 
 OPNAMES = {0: "refineX", 1: "refineY", 2: "coarsenX", 3: "coarsenY", 4: "improve", 5: "run", 6: "refine", 7: "rebisect",
            8: "reoptimize", 9: "improveXTransport", 10: "improveYTransport", 11: "setBinCells", 12: "spreadCoord",
-           13: "updateCellDemand", 14: "coarsenFully", 15: "refineFully"}
+           13: "updateCellDemand", 14: "coarsenFully", 15: "refineFully", 16: "sizeUpdate"}
 
 
 def first_diff(a, b):
@@ -546,7 +606,14 @@ def run(ctx):
                 "side margin): disjoint row segments with gaps/obstructions, bin sizes that do not divide the extent, 0..48 cells incl. "
                 "zero-demand ones, float targets inside/outside/coincident/on limits, all 6 cost models, every parameter set accepted by "
                 "RoughLegalizationParameters::check (line/diag sizes up to 64 in the heavy stream, squares up to 8), 3..24 random ops "
-                "per history.  non-trivial = at least one relational op (refine/run/improve/rebisect/reoptimize/transport) was "
+                "per history out of refineX/Y, coarsenX/Y, improve, run, refine, rebisect, reoptimize, improveX/YTransport, "
+                "setBinCells, spreadCoord, updateCellDemand(vector, scaled), coarsenFully/refineFully and SIZE UPDATES "
+                "(op 16: 0..3 cells of the circuit resized -- merely different / to zero area / from zero area / arbitrary, often "
+                "followed by a repair of every cell whose zero status drifted -- then updateCellDemand(circuit); rate 6% of the "
+                "ops, 10-30% in a third of the histories; counts per class in distribution.update_*).  After EVERY executed op "
+                "the partition oracle (exactly one bin iff demand != 0, for the demands the object holds at that point), "
+                "cellBinX/Y and findBin are evaluated; an accepted update must hold exactly the circuit's areas, a refused one "
+                "must leave demands and allocation untouched.  non-trivial = at least one relational op (refine/run/improve/rebisect/reoptimize/transport) was "
                 "executed and some state had cells in >= 2 bins; SP cases (findConstrainedSplitPos, exact): non-trivial = >= 2 cells. "
                 "distinct = distinct case lines.  Histories on a placement area without extent skip the legalization passes "
                 "(they divide by the extent).",
